@@ -38,7 +38,9 @@ REQUIRED = ["Sqfs.C15.ostream_transparent", "Sqfs.C15.ostream_transparent_single
             "Sqfs.C15.toy_library_meets_convention", "Sqfs.C15.toy_encoder_meets_contract", "Sqfs.C15.toy_decoder_meets_contract",
             "Sqfs.C15.toy_decode_encode", "Sqfs.C15.tarProbe_iff", "Sqfs.C15.magic_unambiguous", "Sqfs.C15.probe_spec",
             "Sqfs.C15.ostream_failure_model_agrees", "Sqfs.C15.istream_failure_model_agrees", "Sqfs.C15.ostream_write_error_reported",
-            "Sqfs.C15.ostream_flush_error_reported", "Sqfs.C15.istream_read_error_reported"]
+            "Sqfs.C15.ostream_flush_error_reported", "Sqfs.C15.istream_read_error_reported",
+            "Sqfs.C15.drainOps_want", "Sqfs.C15.truncated_is_error_for_draining_reader", "Sqfs.C15.corrupt_is_error_for_draining_reader",
+            "Sqfs.C15.valid_stream_drains_to_eof", "Sqfs.C15.library_conventions_ignore_flush_sync"]
 CODECS = ["gzip", "xz", "bzip2", "zstd"]
 MAGIC_LEN = {"gzip": 3, "xz": 6, "zstd": 4, "bzip2": 3}
 JOBS = int(os.environ.get("VERIF_JOBS", "3"))       # parallel tool runs (the machine may be shared)
@@ -318,9 +320,12 @@ def gen_fake_scenarios(ctx, bufsz, n_random, exhaustive):
             script = [rng.choice([0, 0, 1, 2, bufsz - 1 if bufsz > 1 else 0, bufsz, 3 * bufsz]) for _ in range(rng.randint(0, 12))]
             client = [(rng.choice([0, 1, 2, bufsz, bufsz + 3, 512]), rng.choice([0, 1, 1, 2, bufsz, 10 ** 6]))
                       for _ in range(rng.randint(1, 30))]
-            if rng.random() < 0.7:
-                client += [(1, 10 ** 6)] * (len(expect) + 3)
+            drained = rng.random() < 0.7
+            if drained:
+                # a reader that goes on to the end of the stream (Model.drainOps): more rounds than content + junk budget can need
+                client += [(1, bufsz)] * (len(b"".join(ms)) + len(inner) + 3)
             add_i(a, g, t, inner, script, client, cls, expect)
+            sc[-1]["drained"] = drained and all(w > 0 for w, _ in client)
     return sc
 
 
@@ -410,10 +415,16 @@ def spec_verdict(s, impl):
         elif cls == "truncated":
             if f[0] == "ok" and f[2] == "1":
                 bad.append("truncated-is-error")
+            elif f[0] == "ok" and s.get("drained"):
+                bad.append("a-reader-that-reads-to-the-end-gets-the-error")          # truncated_is_error_for_draining_reader
         elif cls == "garbage":
             # neither a member sequence nor a prefix of one: never a regular end (corrupt_is_error)
             if f[0] == "ok" and f[2] == "1":
                 bad.append("corrupt-is-error")
+            elif f[0] == "ok" and s.get("drained"):
+                bad.append("a-reader-that-reads-to-the-end-gets-the-error")          # corrupt_is_error_for_draining_reader
+        if cls == "valid" and s.get("drained") and f[0] == "ok" and not (f[2] == "1" and untok(f[1]) == expect):
+            bad.append("a-reader-that-reads-to-the-end-of-a-valid-stream-gets-everything-then-eof")   # valid_stream_drains_to_eof
     return bad
 
 
@@ -550,6 +561,11 @@ def gen_wrap_scenarios(ctx, n_random):
                         calls = [(0, 64, c) for c in chunks] + [(2, 64, b"")] * 4
                         sc.append({"line": line(be, "d", a, g, t, calls), "family": "eof", "backend": be, "dir": "d", "class": cls,
                                    "content": cont, "nchunks": len(chunks)})
+                        if k == 2 and (a, g, t) == (70, 0, 70):
+                            # the same with total_in counters beyond 2^32 (`wrap big`: the fake libraries add 2^32 - 1 once a byte has been
+                            # consumed, so libbz2's total_in_lo32 is 0 and total_in_hi32 is 1): the end-of-input rule must look at both
+                            sc.append({"line": line(be, "d", a, g, t, calls).replace("wrap new ", "wrap big ", 1), "family": "eof", "backend": be, "dir": "d",
+                                       "class": cls, "content": cont, "nchunks": len(chunks)})
     for _ in range(n_random):
         be = rng.choice(CODECS); d = rng.choice("cd")
         a, g, t = (rng.choice([0, 0, 1, 2, 5, 70]) for _ in range(3))
@@ -728,7 +744,7 @@ def real_codec_part(ctx, real_b):
                 ms.append(cli_compress(T, codec, x, level_of(codec)))
         return ms
 
-    plan = [(5, 16), (64, 30), (1000, 20)] if quick else [(1, 100), (5, 300), (64, 600), (1000, 400), (4096, 200)]
+    plan = [(5, 30), (64, 60), (1000, 40)] if quick else [(1, 100), (5, 300), (64, 600), (1000, 400), (4096, 200)]
     work = []
     for bufsz, n in plan:
         scs = []
@@ -784,6 +800,14 @@ def real_codec_part(ctx, real_b):
                 data = b"".join(pieces)
                 scs.append({"kind": kind, "codec": codec, "class": "-", "want": data,
                             "line": "rfeed %s c %d %d %s" % (codec, rng.choice([1, 3, 64, 5000]), rng.choice([1, 2, 7, 300, 10 ** 6]), tok(data))})
+        if bufsz == 64:
+            # the heaviest presets of the reference tools (left out of the random choice above: their encoders are slow), once each
+            for codec, lvl in (("xz", 9), ("xz", "9e"), ("xz", 7), ("zstd", 22), ("gzip", 9), ("bzip2", 9)):
+                x = piece() + b"squashfs" * 40
+                st = cli_compress(T, codec, x, lvl)
+                client = [(bufsz, 10 ** 6)] * ((len(x) + 1000) // bufsz + 12)
+                scs.append({"kind": "ristream", "codec": codec, "class": "valid", "content": x,
+                            "line": "ristream %d %s 0 0 %s %s %s" % (bufsz, codec, tok(st), "0,7,4095", ",".join("%d:%d" % c for c in client))})
         work.append((bufsz, False, scs))
     # at the real buffer size: members whose boundary lies just around the buffer edge of the wrapper
     big = []
@@ -794,6 +818,15 @@ def real_codec_part(ctx, real_b):
         client = [(real_b, 10 ** 7)] * 8
         big.append({"kind": "ristream", "codec": codec, "class": "valid", "content": b"".join(pieces),
                     "line": "ristream %d %s 0 0 %s %s %s" % (real_b, codec, tok(stream), "131071,131071,0,4095", ",".join("%d:%d" % c for c in client))})
+        # the same at the real size gone wrong: the end cut off, a bit flipped, bytes appended — read to the end by the client
+        for cls, bad_stream in (("cut", stream[:-rng.randint(1, 8)]),
+                                ("flipped", stream[:(p0 := rng.randrange(len(stream)))] + bytes([stream[p0] ^ (1 << rng.randrange(8))]) + stream[p0 + 1:]),
+                                ("garbage", stream + rng.randbytes(rng.randint(1, 9)))):
+            exp = ref_decompress_all(T, codec, bad_stream)
+            lenient = zstd_paths_disagree(T, bad_stream) if (exp is None and codec == "zstd") else None
+            cls2, content = ("valid", exp) if exp is not None else (("either", lenient) if lenient is not None else (cls, b"".join(pieces) if cls == "cut" else None))
+            big.append({"kind": "ristream", "codec": codec, "class": cls2, "content": content,
+                        "line": "ristream %d %s 0 0 %s %s %s" % (real_b, codec, tok(bad_stream), "131071,4095", ",".join("%d:%d" % c for c in client))})
     work.append((real_b, True, big))
 
     xok, xend, xfull, xerr = 0, 1, 2, -1
@@ -962,6 +995,17 @@ def mk_tar(files, end_padding=1024):
     return raw[:end] + b"\0" * end_padding
 
 
+def tar_stop(tar):
+    """offset just behind the end-of-archive marker (two zero records): the tar reader reads no further (read_header.c)"""
+    i = 0
+    while i + 512 <= len(tar):
+        h = tar[i:i + 512]
+        if h == bytes(512):
+            return min(len(tar), i + 1024)
+        i += 512 + (int(h[124:136].rstrip(b"\0 ") or b"0", 8) + 511) // 512 * 512
+    return len(tar)
+
+
 class Tools:
     def __init__(self, ctx):
         self.ctx = ctx
@@ -1069,6 +1113,26 @@ class Tools:
             return ("fail", r.returncode)
         return ("ok", r.stdout)
 
+    def zstd_prefix(self, data):
+        """number of bytes libzstd's streaming decoder hands out before it rejects (or accepts) the stream"""
+        r = subprocess.run([str(self.zref), "d1"], input=data, capture_output=True, env=self.env, timeout=300)
+        need(r.returncode in (0, 1, 2), "reference zstd decoder failed with exit code %s: %s" % (r.returncode, r.stderr[-200:]))
+        return len(r.stdout)
+
+    def unpack_to_full(self, img, codec=None):
+        """sqfs2tar [-c codec] with its standard output on a device that accepts nothing (/dev/full): the exit status"""
+        cmd = [str(self.s2t)] + (["-c", codec] if codec else []) + [str(img)]
+        with open("/dev/full", "wb") as full:
+            try:
+                r = subprocess.run(self.limited(cmd), stdout=full, stderr=subprocess.PIPE, env=self.env, timeout=self.t1)
+            except subprocess.TimeoutExpired:
+                return ("hang", "wall")
+        if self.cpu_killed(r.returncode):
+            return ("hang", "cpu")
+        if r.returncode >= 90 or r.returncode < 0:
+            return ("abort", r.returncode, r.stderr.decode(errors="replace")[-400:])
+        return ("exit", r.returncode)
+
     def zstd(self, mode, data, level=None, wlog=None):
         """libzstd reference coder; decoding: None = the stream is rejected (exit 1/2); any other failure is a failure of the check"""
         args = [str(self.zref), mode] + ([str(level)] if level is not None else []) + ([str(wlog)] if wlog is not None else [])
@@ -1084,7 +1148,6 @@ class Tools:
 
 # every preset level of the reference tools (`xz -9e` = extreme; zstd 20..22 are the `--ultra` levels)
 LEVELS = {"gzip": list(range(1, 10)), "xz": list(range(0, 10)) + ["9e", "6e"], "bzip2": list(range(1, 10)), "zstd": list(range(1, 20)) + [22]}
-QUICK_LEVELS = {"gzip": [1, 9], "xz": [0, 6, 7, 9, "9e"], "bzip2": [1, 9], "zstd": [1, 19, 22]}
 
 
 def cli_compress(T, codec, data, level):
@@ -1175,8 +1238,68 @@ def ref_decompress_all(T, codec, data):
                 rest = d.unused_data
             return out
         return T.zstd("d", data)
-    except Exception:
+    except (zlib.error, lzma.LZMAError, OSError, EOFError, ValueError):
+        # (a failure of the zstd helper is a vlib.CheckFailure and is not caught here)
         return None
+
+
+def ref_prefix_len(T, codec, data, stop):
+    """how many bytes (counted up to `stop`) the reference streaming decompressor hands out before it rejects `data`.  A client that
+    needs only `stop` bytes and then stops reading cannot have been told about damage that the reference finds later.  Output is
+    pulled in bounded pieces and the input is offered byte by byte (everything decodable is fetched before the next byte goes in), so
+    that a failure on what follows (a check sum right behind the `stop`-th byte) cannot take already decodable bytes with it."""
+    if codec == "zstd":
+        return min(stop, T.zstd_prefix(data))
+    n, pos = 0, 0
+    try:
+        while pos < len(data) and n < stop:
+            d = {"gzip": lambda: zlib.decompressobj(31), "xz": lambda: lzma.LZMADecompressor(format=lzma.FORMAT_XZ),
+                 "bzip2": lambda: bz2.BZ2Decompressor()}[codec]()
+            buf = b""
+            while not d.eof and n < stop:
+                if codec == "gzip":
+                    if not buf:
+                        if pos >= len(data):
+                            return n
+                        buf = data[pos:pos + 1]; pos += 1
+                    n += len(d.decompress(buf, min(4096, stop - n))); buf = d.unconsumed_tail
+                else:
+                    chunk = b""
+                    if d.needs_input:
+                        if pos >= len(data):
+                            return n
+                        chunk = data[pos:pos + 1]; pos += 1
+                    n += len(d.decompress(chunk, min(4096, stop - n)))
+            if d.eof:
+                pos -= len(d.unused_data)
+    except (zlib.error, lzma.LZMAError, OSError, EOFError, ValueError):
+        pass
+    return n
+
+
+def gzip_with_header_fields(data, level=6):
+    """a gzip member whose header carries FEXTRA, FNAME, FCOMMENT and FHCRC (RFC 1952; `gzip -N` writes FNAME)"""
+    co = zlib.compressobj(level, zlib.DEFLATED, -15)
+    body = co.compress(data) + co.flush()
+    hdr = b"\x1f\x8b\x08" + bytes([0x02 | 0x04 | 0x08 | 0x10]) + b"\0\0\0\0\x00\x03"
+    hdr += (6).to_bytes(2, "little") + b"Ap\x02\x00xy" + b"archive.tar\0" + b"made by the C15 check\0"
+    hdr += (zlib.crc32(hdr) & 0xFFFF).to_bytes(2, "little")
+    return hdr + body + (zlib.crc32(data) & 0xFFFFFFFF).to_bytes(4, "little") + (len(data) & 0xFFFFFFFF).to_bytes(4, "little")
+
+
+def xz_with_dict_size(stream, bits):
+    """the .xz stream (one block, LZMA2 only, as `xz -T1` writes it) with the dictionary size its block header announces changed to
+    the one encoded by `bits` (29 = 96 MiB): the decoder allocates what is announced, so xz.c's memory limit decides"""
+    need(stream[:6] == b"\xfd7zXZ\0" and stream[13] == 0 and stream[14] == 0x21 and stream[15] == 1, "unexpected .xz block header layout")
+    size = (stream[12] + 1) * 4
+    hdr = bytearray(stream[12:12 + size - 4]); hdr[4] = bits
+    return stream[:12] + bytes(hdr) + (zlib.crc32(bytes(hdr)) & 0xFFFFFFFF).to_bytes(4, "little") + stream[12 + size:]
+
+
+def cli_variant(cmd, data):
+    r = subprocess.run(cmd, input=data, capture_output=True, timeout=600)
+    need(r.returncode == 0 and len(r.stdout) > 0, "%s failed (exit %s): %s" % (" ".join(cmd), r.returncode, r.stderr[-200:]))
+    return r.stdout
 
 
 def zstd_paths_disagree(T, data):
@@ -1214,6 +1337,14 @@ def tool_part(ctx, bufsz):
     # window fails there): the same 30000 random bytes, 1.5 buffers long
     far = rng.randbytes(30000)
     archives.append(("far-matches", mk_tar([("f", (far * (3 * bufsz // 60000 + 1))[:3 * bufsz // 2])])))
+    # the end-of-archive marker followed by more than two wrapper buffers of zero padding (what `tar -b N` with a large blocking
+    # factor writes): the tar reader stops at the marker, the end of the compressed stream lies two buffers further on
+    padded_payload = rng.randbytes(rng.randint(3000, 9000))
+    archives.append(("padded", mk_tar([("p.bin", padded_payload), ("q", b"x" * rng.randint(1, 700))],
+                                      end_padding=1024 + 2 * bufsz + 512 * rng.randint(1, 40))))
+    stops = {tag: tar_stop(tar) for tag, tar in archives}
+    need(stops["padded"] + 2 * bufsz <= len(archives[-1][1]) and all(0 < v <= len(t) for (g, t), v in zip(archives, stops.values())),
+         "end-of-archive markers of the generated archives not found where expected: %s" % stops)
     plain = {}
     slowest = 0.0
     import resource
@@ -1270,6 +1401,18 @@ def tool_part(ctx, bufsz):
                         add("zstd-frames", codec, tag, "frame header names a dictionary", did, "reference")
                     add("zstd-frames", codec, tag, "window log 27 (largest a default decoder accepts)", T.zstd("cs", tar, 19, 27), "same")
                     add("zstd-frames", codec, tag, "window log 28 (a default decoder refuses it)", T.zstd("cs", tar, 19, 28), "reference")
+                # container features beyond the preset level (review E, F3): valid archives, judged by the reference expansion
+                if codec == "xz":
+                    for opt in (["--check=none"], ["--check=crc32"], ["--check=crc64"], ["--check=sha256"], ["--block-size=4096"],
+                                ["-T2", "--block-size=8192"], ["--x86", "--lzma2=preset=1"], ["--lzma2=dict=64KiB,lc=4,lp=0,pb=0"]):
+                        add("container", codec, tag, "xz " + " ".join(opt), cli_variant(["xz", "-c"] + (["-T1"] if "-T2" not in opt else []) + opt, tar), "reference")
+                    add("container", codec, tag, "xz block header announcing a 96 MiB dictionary (the largest step below xz.c's 128 MiB memory limit)",
+                        xz_with_dict_size(cli_variant(["xz", "-c", "-T1", "-1"], tar), 29), "reference")
+                if codec == "gzip":
+                    add("container", codec, tag, "gzip header with FEXTRA, FNAME, FCOMMENT, FHCRC", gzip_with_header_fields(tar), "reference")
+                    add("container", codec, tag, "gzip --rsyncable -1", cli_variant(["gzip", "-n", "-c", "--rsyncable", "-1"], tar), "reference")
+                if codec == "bzip2":
+                    add("container", codec, tag, "bzip2 -1 (100k blocks: several per stream for the larger files)", cli_variant(["bzip2", "-c", "-1"], tar), "reference")
                 for pad in (1, 4, 512, 10240):
                     add("padding", codec, tag, "+%d zero bytes" % pad, whole + b"\0" * pad, "same-or-error")
                 add("garbage", codec, tag, "+ trailing garbage", whole + rng.randbytes(rng.randint(1, 64)), "same-or-error")
@@ -1279,12 +1422,29 @@ def tool_part(ctx, bufsz):
                 for k in ([rng.choice([1, 2, 3])] if quick else [0, 1, 2, 3, 5]):
                     cut, got, first = member_of_length(T, codec, tar, edge - k)
                     add("straddle", codec, tag, "2 members, the second starts at byte %d (edge %d)" % (got, edge), first + ref_compress(T, codec, tar[cut:]), "same")
+            if tag == "padded":
+                # damage that lies behind the point where the tar reader stops reading (review E, F1): the last bytes of the
+                # stream (check sums, length fields, index/footer) cut off or flipped, and payload bytes flipped where the codec stores
+                # them verbatim (the check sum that reveals it stands in the trailer) — the reference decompressors reject all of it
+                low = ref_compress(T, codec, tar, {"gzip": 0, "xz": 0, "bzip2": 1, "zstd": 1}[codec])
+                for cut in sorted({1, 2, 8, rng.randint(1, 8), 12 if codec == "xz" else 5}):
+                    add("beyond-end-marker", codec, tag, "last %d bytes cut off (trailer)" % cut, low[:-cut], "reference")
+                for _ in range(2 if quick else 8):
+                    pos = len(low) - 1 - rng.randrange(12 if codec != "bzip2" else 6); bit = rng.randrange(8)
+                    b = bytearray(low); b[pos] ^= 1 << bit
+                    add("beyond-end-marker", codec, tag, "bit %d of byte %d flipped (%d bytes before the end)" % (bit, pos, len(low) - pos), bytes(b), "reference")
+                at = low.find(padded_payload[1000:1016])
+                if at >= 0:
+                    b = bytearray(low); b[at + rng.randrange(16)] ^= 1 << rng.randrange(8)
+                    add("beyond-end-marker", codec, tag, "bit flipped in a payload byte the codec stores verbatim", bytes(b), "reference")
+                else:
+                    need(codec != "gzip", "gzip at level 0 does not store the payload verbatim (no payload flip generated)")
             ncut = (8 if small else 2) if quick else (80 if small else 10)
             cuts = {MAGIC_LEN[codec], len(whole) - 1, len(whole) - 4, len(whole) // 2, 100}
             while len(cuts) < ncut + 5:
                 cuts.add(rng.randint(MAGIC_LEN[codec], len(whole) - 1))
             for cut in sorted(c for c in cuts if MAGIC_LEN[codec] <= c < len(whole)):
-                add("truncated", codec, tag, "cut to %d of %d bytes" % (cut, len(whole)), whole[:cut], "error-or-same")
+                add("truncated", codec, tag, "cut to %d of %d bytes" % (cut, len(whole)), whole[:cut], "reference")
             # the magic number itself damaged: tar_open_stream cannot recognise the codec and reads the bytes as a tar stream
             b0 = bytearray(whole); b0[0] ^= 1
             add("magic-damaged", codec, tag, "bit 0 of byte 0 (magic number) flipped, %d bytes" % len(whole), bytes(b0), "error-or-same")
@@ -1342,19 +1502,29 @@ def tool_part(ctx, bufsz):
             key, what = "not-transparent:%s:%s" % (codec, cls), "tar2sqfs on %s (%s, archive %s) gives %s instead of the image of the plain archive" % (codec, desc, tag, res[:2])
         elif oracle == "same-or-error" and not (same or clean_err):
             key, what = "not-transparent:%s:%s" % (codec, cls), "tar2sqfs on %s with %s gives another image (exit 0)" % (codec, desc)
-        elif oracle == "error-or-same" and cls == "magic-damaged" and not (same or clean_err):
+        elif oracle == "error-or-same" and cls == "magic-damaged" and not clean_err:
             key, what = "unrecognised-short-input-accepted", ("tar2sqfs exits 0 with an empty/shorter image on a %s stream whose magic number is damaged (%s): "
                                                              "tar_open_stream reads it as a tar stream and the tar reader takes less than one header of garbage for a clean end" % (codec, desc))
-        elif oracle == "error-or-same" and not (same or clean_err):
-            key, what = "truncated-accepted:%s" % codec, "tar2sqfs exits 0 with a shorter image on a truncated %s stream (%s)" % (codec, desc)
         elif oracle == "reference":
             if ref[0] == "either":
                 results["zstd_library_paths_disagree"] = results.get("zstd_library_paths_disagree", 0) + 1
                 if not (clean_err or res[:2] == ref[1][:2]):
                     key, what = "corrupt-accepted:%s" % codec, "tar2sqfs on a %s stream only libzstd's block-by-block path accepts (%s) gives neither an error nor the image of that path's expansion" % (codec, desc)
             elif ref == ("rejects",):
-                if not (same or clean_err):
-                    key, what = "corrupt-accepted:%s" % codec, "tar2sqfs exits 0 with another image on a %s stream the reference decompressor rejects (%s)" % (codec, desc)
+                # a stream the reference tools reject must be rejected — also when the image happens to be the right one
+                if not clean_err:
+                    delivered = ref_prefix_len(T, codec, data, stops[tag])
+                    if delivered >= stops[tag]:
+                        results["unread_tail_accepted"] = results.get("unread_tail_accepted", 0) + 1
+                        key, what = "unread-tail-accepted:%s" % codec, (
+                            "tar2sqfs exits 0 (%s) on a %s stream the reference decompressor rejects (%s): the damage lies behind the end-of-archive "
+                            "marker (the reference hands out the %d bytes up to the marker at byte %d before it fails) and tar2sqfs never reads the "
+                            "compressed stream to its end" % ("image of the intact archive" if same else "another image", codec, desc, delivered, stops[tag]))
+                    elif cls == "truncated":
+                        key, what = "truncated-accepted:%s" % codec, "tar2sqfs exits 0 with a shorter image on a truncated %s stream (%s)" % (codec, desc)
+                    else:
+                        key, what = "corrupt-accepted:%s" % codec, "tar2sqfs exits 0 (%s) on a %s stream the reference decompressor rejects (%s)" % (
+                            "same image" if same else "another image", codec, desc)
             elif ref[0] in ("ok", "fail") and res[0] in ("ok", "fail"):
                 if (ref[0] == "ok") != (res[0] == "ok") or (ref[0] == "ok" and ref[1] != res[1]):
                     # reference accepts the damaged stream (damage outside checked data): must behave as on its expansion
@@ -1363,8 +1533,8 @@ def tool_part(ctx, bufsz):
             samples.append({"class": cls, "codec": codec, "archive": tag, "variant": desc, "bytes": len(data), "outcome": res[0] if not same else "same image"})
         if key:
             report(ctx, key, what, {"tool": "tar2sqfs", "codec": codec, "class": cls, "archive": tag, "variant": desc,
-                                      "input_hex": tok(data) if len(data) <= 70000 else None, "input_sha256": vlib.sha(data),
-                                      "input_len": len(data), "expected": oracle, "got": list(res[:2])})
+                                      "input_hex": tok(data) if len(data) <= 300000 else None, "input_sha256": vlib.sha(data),
+                                      "input_len": len(data), "expected": oracle, "got": list(res[:2]), "archive_ends_at": stops[tag]})
 
     # ---- sqfs2tar -c X | reference decompressor  ==  sqfs2tar
     ujobs = []
@@ -1415,7 +1585,24 @@ def tool_part(ctx, bufsz):
         if key:
             report(ctx, key, what, {"tool": "sqfs2tar", "codec": codec, "archive": tag, "tar_len": len(base),
                                       "archive_recipe": "one file of incompressible/compressible bytes so that the tar stream is %d bytes" % len(base)})
-    for cls in ("single", "members", "level", "pipe-chunks", "straddle", "zstd-frames", "padding", "garbage", "truncated", "magic-damaged", "flipped"):
+    # ---- a failing standard output is reported (review E, F4): sqfs2tar [-c X] > /dev/full must not exit 0
+    fjobs = [(tag, codec, T.d / ("src_%s.sqfs" % tag)) for tag in ("small", archives[1][0]) for codec in [None] + CODECS]
+    with ThreadPoolExecutor(max_workers=JOBS) as ex:
+        fouts = list(ex.map(lambda j: T.unpack_to_full(j[2], j[1]), fjobs))
+    need(len(fouts) == 2 * (len(CODECS) + 1), "sqfs2tar > /dev/full: %d results" % len(fouts))
+    for (tag, codec, img), res in strict_zip("sqfs2tar > /dev/full", fjobs, fouts):
+        results["sqfs2tar_runs"] += 1
+        oc = "sqfs2tar>/dev/full:" + (res[0] if res[0] != "exit" else ("error-reported" if res[1] != 0 else "exit-0"))
+        results["outcomes"][oc] = results["outcomes"].get(oc, 0) + 1
+        if res != ("exit", 1) and not (res[0] == "exit" and 0 < res[1] < 90):
+            report(ctx, "write-error-swallowed:sqfs2tar:%s" % (codec or "plain"),
+                   "sqfs2tar %s with its output on /dev/full (every write fails with ENOSPC): %s — a write error of the output stream is not reported" % (
+                       "-c " + codec if codec else "(no compressor)", res[:2]),
+                   {"tool": "sqfs2tar>/dev/full", "codec": codec, "archive": tag})
+    need(results["outcomes"].get("sqfs2tar>/dev/full:error-reported", 0) + results["outcomes"].get("sqfs2tar>/dev/full:exit-0", 0) > 0,
+         "no sqfs2tar run with a failing standard output completed")
+    for cls in ("single", "members", "level", "pipe-chunks", "straddle", "zstd-frames", "container", "padding", "garbage", "truncated", "magic-damaged",
+                "flipped", "beyond-end-marker"):
         need(results["by_class"].get(cls, 0) > 0, "no tar2sqfs run of class %s" % cls)
     for codec in CODECS:
         need(results["by_codec"].get(codec, 0) > 0, "no tar2sqfs run for %s" % codec)
@@ -1516,6 +1703,12 @@ def replay(ctx, path):
         print("reference decompressor:", "rejects the stream" if exp is None else "accepts; tar2sqfs on its expansion: %s" % (ref[:2],))
         bad = res[0] in ("hang", "abort") or (res[0] == "ok" and (exp is None or ref[:2] != res[:2]))
         return 1 if bad else 0
+    if rp.get("tool") == "sqfs2tar>/dev/full":
+        T = Tools(ctx)
+        img = T.image(mk_tar([("a.txt", b"hello\n" * 20), ("b.bin", ctx.rng.randbytes(3000 if rp.get("archive") == "small" else 300000))]), "replay")
+        res = T.unpack_to_full(img, rp.get("codec"))
+        print("sqfs2tar %s > /dev/full: %s (must exit with an error)" % ("-c %s" % rp["codec"] if rp.get("codec") else "", res[:2]))
+        return 0 if (res[0] == "exit" and 0 < res[1] < 90) else 1
     if rp.get("tool") == "sqfs2tar":
         T = Tools(ctx)
         n = rp["tar_len"] - 512 - 1024
